@@ -1,7 +1,7 @@
 (* Run.v — command dispatcher: one S-expression in, one S-expression out.
    This is what the OCaml driver calls; each command evaluates model functions on a case that the
    Python harness also runs on the rebuilt implementation. *)
-From OptreeModel Require Export Wire Flatten Unflatten Spec Ops Registry Pickle.
+From OptreeModel Require Export Wire Flatten Unflatten Spec Ops Registry Pickle Accessor.
 
 Definition bad : sexp := SL [SI 2].   (* undecodable input: a harness error, never a verdict *)
 
@@ -204,6 +204,15 @@ Definition cmd_pickle (c : cfg) (o : obj) (regs2 : list reg) : sexp :=
         end]
   end.
 
+(* cmd 10: apply every path of the tree to the tree *)
+Definition cmd_access (c : cfg) (o : obj) : sexp :=
+  match flatten_with_path c o with
+  | Err e => enc_err e
+  | Ok (ps, ls, sp) =>
+    SL [SI 0; SL (map (fun p => match get_path o p with Some x => SL [SI 0; enc_obj x] | None => SL [SI 1] end) ps);
+        enc_objs ls]
+  end.
+
 Definition run (s : sexp) : sexp :=
   match s with
   | SL [SI 1; c; o] =>
@@ -250,6 +259,11 @@ Definition run (s : sexp) : sexp :=
     match dec_cfg c, dec_obj o, dec_list dec_reg regs2 with
     | Some c', Some o', Some r2 => cmd_pickle c' o' r2
     | _, _, _ => bad
+    end
+  | SL [SI 10; c; o] =>
+    match dec_cfg c, dec_obj o with
+    | Some c', Some o' => cmd_access c' o'
+    | _, _ => bad
     end
   | _ => bad
   end.
